@@ -160,7 +160,7 @@ Proof.
 Qed.
 
 Theorem time_clock t k fps tr fr :
-  (t == k # 1000)%Q -> 0 <= k < 360000000 -> 0 < tr -> (0 < fr)%Q ->
+  (t == k # 1000)%Q -> 0 <= k < 360000000 -> (0 < tr)%Q -> (0 < fr)%Q ->
   exists s, to_time_format SyClock fps t = Some s /\
             exists q, parse_time_x (Some tr) (Some fr) s = TVal q /\ (q == t)%Q.
 Proof.
@@ -304,7 +304,7 @@ Definition written_rate_attrs (fps : Q) : list (qname * text) :=
   let '(fr, m) := print_frame_rate fps in
   (A_frameRate, fr) :: match m with Some s => [(A_frameRateMultiplier, s)] | None => [] end.
 Definition rate_roundtrip (fps : Q) : bool :=
-  match extract_frame_rate (written_rate_attrs fps) with Some q => Qeq_bool q fps | None => false end.
+  Qeq_bool (extract_frame_rate (written_rate_attrs fps)) fps.
 Definition listed_rates : list Q := [24 # 1; 25 # 1; 30 # 1; 50 # 1; 60 # 1; 24000 # 1001; 30000 # 1001]%Q.
 Lemma frame_rate_roundtrip : forallb rate_roundtrip listed_rates = true.
 Proof. vm_compute. reflexivity. Qed.
